@@ -12,7 +12,7 @@ def run(ctx, res):
     for v in viol:
         if v.get("prop") == "C06":
             res.oracle_violations.append(v)
-    K.report(ctx, res, pool, cmp_, spv, stats, facts)
+    K.report(ctx, res, [], cmp_, spv, stats, facts)
     res.assumptions = [
         "the assorter is a black box A with 0 <= A <= u_a and 1/2 <= u_a; pool means in [0, u_a] (lemma: means computed by "
         "set_tally_pool_means from such an A are)",
